@@ -4,7 +4,8 @@ open Wpull
 /-- engine name ↦ handler of the remaining tokens (one line per engine) -/
 def engines : List (String × (List String → String)) := [
   ("ftp", Wpull.Ftp.handle),
-  ("crawl", Wpull.Crawl.handle)
+  ("crawl", Wpull.Crawl.handle),
+  ("path", Wpull.Path.handle)
 ]
 
 def handle (line : String) : String :=
